@@ -1,8 +1,212 @@
 package main
 
 import (
+	"bytes"
+	"context"
+	"fmt"
+	"strings"
+	"time"
+
+	"github.com/plgd-dev/go-coap/v3/message"
+	"github.com/plgd-dev/go-coap/v3/message/codes"
+	"github.com/plgd-dev/go-coap/v3/message/pool"
+	"github.com/plgd-dev/go-coap/v3/net/blockwise"
+	"github.com/plgd-dev/go-coap/v3/net/responsewriter"
+	tcpclient "github.com/plgd-dev/go-coap/v3/tcp/client"
+
 	"verif/ev"
 	"verif/mcx"
+	"verif/vrt"
+	"verif/worlds/tcpw"
 )
 
-func addTCP(r *ev.Run, scs *[]*mcx.Scenario) {}
+// tcp two-party family: two real tcp/client.Conn endpoints joined by a byte relay (reliable,
+// ordered; the relay chooses where the stream is cut). BERT (SZX 7) and the plain block sizes.
+
+type tcfg struct {
+	SzxA, SzxB blockwise.SZX
+	MaxA, MaxB uint32
+	Up, Down   int
+	Cuts       int
+}
+
+func (c tcfg) String() string {
+	return fmt.Sprintf("tcp two-party szx(client=%d,server=%d) maxmsg(client=%d,server=%d) up=%d down=%d cuts<=%d", c.SzxA, c.SzxB, c.MaxA, c.MaxB, c.Up, c.Down, c.Cuts)
+}
+
+func tcpScenario(c tcfg) *mcx.Scenario {
+	return &mcx.Scenario{
+		Name:   c.String(),
+		Bounds: mcx.Bounds{Preempt: 0, Env: c.Cuts, Select: 0, Delay: 1},
+		Opt:    vrt.Options{MaxSteps: 1500000},
+		Body: func(s *vrt.Sched) func() (string, []mcx.Finding) {
+			var fs []mcx.Finding
+			var hist []string
+			up, down := pattern(c.Up, 0x11), pattern(c.Down, 0x77)
+			var handlerBodies [][]byte
+			done := false
+			var derr error
+			var gotBody []byte
+			var gotCode codes.Code
+			vrt.App("relay", func() {
+				csm := func() message.Message {
+					bo := make([]byte, 4)
+					opts, _, _ := message.Options{}.SetUint32(bo, message.TCPMaxMessageSize, 8192)
+					opts = append(opts, message.Option{ID: message.TCPBlockWiseTransfer})
+					return message.Message{Code: codes.CSM, Options: opts}
+				}
+				A := tcpw.New(tcpw.Opts{LimitTotal: 4, LimitEndpoint: 4, QueueSize: 8, BlockWise: true, SZX: c.SzxA, MaxMsgSize: c.MaxA, DisableCSM: true, BWTimeout: 20 * time.Second})
+				B := tcpw.New(tcpw.Opts{LimitTotal: 4, LimitEndpoint: 4, QueueSize: 8, BlockWise: true, SZX: c.SzxB, MaxMsgSize: c.MaxB, DisableCSM: true, BWTimeout: 20 * time.Second,
+					Handler: func(w *responsewriter.ResponseWriter[*tcpclient.Conn], r *pool.Message) {
+						if r.Code() != codes.POST && r.Code() != codes.GET {
+							return
+						}
+						b, _ := r.ReadBody()
+						handlerBodies = append(handlerBodies, append([]byte{}, b...))
+						if down != nil {
+							_ = w.SetResponse(codes.Content, message.AppOctets, bytes.NewReader(down))
+						} else {
+							_ = w.SetResponse(codes.Changed, message.TextPlain, nil)
+						}
+					}})
+				// both sides announce block-wise support (RFC 8323 §5.3.2)
+				A.Inject(csm())
+				B.Inject(csm())
+				vrt.Quiesce("relay: CSM exchanged")
+				vrt.App("client", func() {
+					ctx, cancel := vrt.WithTimeout(context.Background(), 60*time.Second)
+					defer cancel()
+					req := A.CC.AcquireMessage(ctx)
+					req.SetToken(message.Token{0xE7, 0x01})
+					_ = req.SetPath("/big")
+					if up != nil {
+						req.SetCode(codes.POST)
+						req.SetContentFormat(message.AppOctets)
+						req.SetBody(bytes.NewReader(up))
+					} else {
+						req.SetCode(codes.GET)
+					}
+					resp, err := A.CC.Do(req)
+					derr = err
+					if err == nil {
+						gotCode = resp.Code()
+						gotBody, _ = resp.ReadBody()
+					}
+					done = true
+				})
+				sentA, sentB := 0, 0
+				move := func(from *tcpw.World, sent *int, to *tcpw.World, name string) bool {
+					out := from.St.Out[*sent:]
+					if len(out) == 0 {
+						return false
+					}
+					*sent = len(from.St.Out)
+					// the relay may cut the run of bytes once (deviation): in the header region or in the middle
+					cut := 0
+					if len(out) > 3 {
+						switch vrt.Choose(3, []int8{0, 1, 1}) {
+						case 1:
+							cut = 2
+						case 2:
+							cut = len(out) / 2
+						}
+					}
+					if cut > 0 {
+						hist = append(hist, fmt.Sprintf("%s:%d|%d", name, cut, len(out)-cut))
+						to.InjectChunks(out[:cut], out[cut:])
+					} else {
+						hist = append(hist, fmt.Sprintf("%s:%d", name, len(out)))
+						to.InjectChunks(out)
+					}
+					return true
+				}
+				for round := 0; round < 200; round++ {
+					vrt.Quiesce("relay: settle")
+					a := move(A, &sentA, B, "A>B")
+					b := move(B, &sentB, A, "B>A")
+					if !a && !b {
+						if done {
+							break
+						}
+						// nothing in flight and the caller still waits: let the deadline pass
+						vrt.Advance(61 * time.Second)
+					}
+				}
+			})
+			return func() (string, []mcx.Finding) {
+				fail := func(sig, format string, a ...any) {
+					fs = append(fs, mcx.Finding{Sig: sig, What: c.String() + ": " + fmt.Sprintf(format, a...) + "; relay [" + strings.Join(hist, " ") + "]"})
+				}
+				if !done {
+					return "hung", fs
+				}
+				wantUp := up
+				if wantUp == nil {
+					wantUp = []byte{}
+				}
+				for i, b := range handlerBodies {
+					if !bytes.Equal(b, wantUp) {
+						fail("tcp/handler-got-wrong-body", "handler invocation %d got %d bytes %s, the client sent %d bytes %s", i, len(b), head(b), len(wantUp), head(wantUp))
+					}
+				}
+				if len(handlerBodies) > 1 && up != nil {
+					fail("tcp/handler-invoked-twice", "handler ran %d times for one uploaded body", len(handlerBodies))
+				}
+				if derr == nil && (gotCode == codes.Content || gotCode == codes.Changed) {
+					wantDown := down
+					if wantDown == nil {
+						wantDown = []byte{}
+					}
+					if gotBody == nil {
+						gotBody = []byte{}
+					}
+					if !bytes.Equal(gotBody, wantDown) {
+						fail("tcp/client-got-wrong-body", "Do returned %d bytes %s, the server sent %d bytes %s", len(gotBody), head(gotBody), len(wantDown), head(wantDown))
+					}
+					if len(handlerBodies) < 1 {
+						fail("tcp/success-without-handler", "Do succeeded but the handler never ran")
+					}
+				} else {
+					// The statement allows an exchange to end with an error or a timeout; a transfer that does not
+					// complete on a fault-free stream is recorded as an observation (DESIGN O4: a BERT upload whose
+					// body fits the first block still announces more=1 and then stalls until the deadline).
+					vrt.S = s
+					vrt.Metric("fault_free_stream_transfers_ending_in_error_or_timeout", 1)
+					vrt.S = nil
+				}
+				return fmt.Sprintf("%v/%v/%d", derr != nil, gotCode, len(handlerBodies)), fs
+			}
+		},
+	}
+}
+
+func addTCP(r *ev.Run, scs *[]*mcx.Scenario) {
+	type pair struct {
+		a, b       blockwise.SZX
+		maxA, maxB uint32
+	}
+	pairs := []pair{{7, 7, 1152, 1152}, {7, 7, 4096, 2300}, {7, 6, 4096, 4096}, {6, 7, 4096, 4096}, {2, 7, 4096, 4096}, {0, 0, 4096, 4096}}
+	for _, p := range pairs {
+		blk := 1024
+		if p.a < 7 && p.b < 7 {
+			blk = 16 << min(p.a, p.b)
+		} else if p.a < 7 {
+			blk = 16 << p.a
+		} else if p.b < 7 {
+			blk = 16 << p.b
+		}
+		var ns []int
+		for _, k := range []int{1, 2, 3} {
+			ns = append(ns, k*blk-1, k*blk, k*blk+1)
+		}
+		ns = append(ns, 0, 1, 5000)
+		for _, n := range ns {
+			if !r.Thorough() && blk < 1024 && n > 3*blk+1 {
+				continue
+			}
+			*scs = append(*scs, tcpScenario(tcfg{SzxA: p.a, SzxB: p.b, MaxA: p.maxA, MaxB: p.maxB, Up: n, Down: -1, Cuts: ev.Pick(r, 1, 2)}))
+			*scs = append(*scs, tcpScenario(tcfg{SzxA: p.a, SzxB: p.b, MaxA: p.maxA, MaxB: p.maxB, Up: -1, Down: n, Cuts: ev.Pick(r, 1, 2)}))
+		}
+		*scs = append(*scs, tcpScenario(tcfg{SzxA: p.a, SzxB: p.b, MaxA: p.maxA, MaxB: p.maxB, Up: 2*blk + 1, Down: 2*blk + 1, Cuts: 1}))
+	}
+}
